@@ -29,3 +29,14 @@ Lemma rt_search_3 :
   rt_count false [] 3 = [0; 0; 0]%nat /\ rt_count true [] 3 = [0; 0; 0]%nat /\
   rt_count false [0; 4; 8; 9]%nat 3 = [0; 22; 1]%nat /\ rt_count true [0; 4; 8; 9]%nat 3 = [0; 0; 0]%nat.
 Proof. vm_compute. repeat split; reflexivity. Qed.
+
+(* the same histories against the real thing: positions 14 and 15 of Spec.p_step_all *)
+Definition rt_bad_real (r : nat) (mid ks : list nat) : bool :=
+  rt_nopanic (snd (run (init (rt_cfg r) 0) (rt_evs mid ks)))
+  && negb (forallb (fun x => String.eqb (fst x) "" && String.eqb (snd x) "")
+                   (rt_positions (rt_cfg r) 0 mon0 empty_dump (rt_trace (init (rt_cfg r) 0) (rt_evs mid ks)))).
+Definition rt_count_real (mid : list nat) (n : nat) : list nat :=
+  map (fun r => List.length (filter (rt_bad_real r mid) (rt_seqs 10 n))) [0%nat; 1%nat; 2%nat].
+
+Lemma rt_search_real_3 : rt_count_real [] 3 = [0; 0; 0]%nat /\ rt_count_real [0; 4; 8; 9]%nat 3 = [0; 0; 0]%nat.
+Proof. vm_compute. split; reflexivity. Qed.
